@@ -143,7 +143,7 @@ class C19(core.Check):
             s += f' {len(genes)}' + ''.join(' ' + str(g) for g in genes)
         return s
 
-    def run_precedence(self, case):
+    def run_precedence(self, case, fast=False):
         """run a real backtest; returns per route the hp the strategy saw (values in declaration order, or
         the explicit dict's values), or an 'err …' string"""
         jesse_env.setup()
@@ -176,7 +176,7 @@ class C19(core.Check):
         rows = [(100 + i, 100.5 + i, 101 + i, 99 + i, 10) for i in range(6)]
         cs = {s: bt.make_candles(rows) for s in syms}
         try:
-            bt.run(bt.config(), [(s, '1m', c) for s, c in zip(syms, classes)], [], cs, hyperparameters=ex)
+            bt.run(bt.config(), [(s, '1m', c) for s, c in zip(syms, classes)], [], cs, hyperparameters=ex, fast_mode=fast)
         except Exception as e:  # noqa
             return 'err ' + purecorr.ERRMAP.get(type(e).__name__, 'Other')
         out = []
@@ -263,11 +263,12 @@ class C19(core.Check):
                     res.fail(**{'class': 'dna_to_hp/not-positional', 'input': {'decls': repr(ds)[:300], 'dna': dna, 'pair': [a, b]},
                                 'observed': got, 'expected': want})
         # precedence on real runs, stated directly (not via the model)
-        for case in self.precedence_cases(self.budget(16, 160, boost)):
+        # … in BOTH simulators: the precedence is decided before the simulation starts, whichever simulator runs
+        for case, fast in [(c, f) for c in self.precedence_cases(self.budget(16, 160, boost)) for f in (False, True)]:
             ex, routes = case
-            got = self.run_precedence(case)
-            res.seen(('prec', repr(case)), True)
-            res.count('precedence')
+            got = self.run_precedence(case, fast=fast)
+            res.seen(('prec', repr(case), fast), True)
+            res.count('precedence:' + ('fast' if fast else 'step'))
             if isinstance(got, str):
                 continue
             for idx, (ds, genes) in enumerate(routes):
@@ -281,7 +282,7 @@ class C19(core.Check):
                 else:
                     want = None
                 if got[idx] != want:
-                    res.fail(**{'class': 'precedence/wrong-hp', 'input': {'explicit': ex, 'route': idx, 'routes': repr(routes)[:500]},
+                    res.fail(**{'class': 'precedence/wrong-hp', 'input': {'explicit': ex, 'route': idx, 'routes': repr(routes)[:500], 'fast_mode': fast},
                                 'observed': got[idx], 'expected': want})
             res.sample({'explicit': ex, 'routes': [(len(ds), len(g)) for ds, g in routes], 'hp_seen': got})
 
